@@ -372,6 +372,10 @@ func (w *world) evaluate(skip bool) (vios []run.Violation, finals []groupFinal, 
 			if len(running) > 0 {
 				add("quiescent", "quiescent:running-without-reservation:"+kind+lost,
 					fmt.Sprintf("group %s on node %s: Running pods %v carry the group but there is no reservation pod at quiescence (live carriers %v).%s\n    history of the group:\n      %s", g, gp.Node, running, live, crashNote, hist))
+			} else if lost != "" {
+				// the external loss of a reservation pod is not one of the events the property quantifies over; after it
+				// only the clause "no running pod stays attached to a group without reservation" is judged
+				w.count("not_judged_pending_consumer_after_external_reservation_loss", 1)
 			} else {
 				add("quiescent", "quiescent:pending-consumer-without-reservation:"+kind+lost,
 					fmt.Sprintf("group %s on node %s: pods %v carry the group but there is no reservation pod at quiescence.%s\n    history of the group:\n      %s", g, gp.Node, live, crashNote, hist))
